@@ -10,7 +10,9 @@ Open Scope list_scope.
 Open Scope nat_scope.
 
 (* ---- the repository: an in-memory universe ---- *)
-Record ucand := mkCand { cname : string; cdist : dist; creadable : bool }.
+(* csdist: the candidate is a source distribution (DistributionType.SDIST); wheels and the SOURCE
+   candidates of solution / source-tree repositories are not *)
+Record ucand := mkCand { cname : string; cdist : dist; creadable : bool; csdist : bool }.
 Definition universe := list (string * list ucand).
 
 Definition cand_version (c : ucand) : version :=
@@ -63,6 +65,42 @@ Definition get_dist (u : universe) (repo_allow_pre : bool) (r : req) (budget : o
       else None
   end.
 
+(* the same with allow_source_dist: source distributions are skipped (without counting towards the
+   budget) when the project is marked binary-only *)
+Fixpoint scan_src (allow_source : bool) (r : req) (budget : option nat) (tried : list version) (cs : list ucand)
+  : option dist :=
+  match cs with
+  | [] => None
+  | c :: cs' =>
+      if csdist c && negb allow_source then scan_src allow_source r budget tried cs'
+      else if creadable c && String.eqb (norm (cname c)) (norm (safe_name (rname r))) then Some (cdist c)
+      else
+        let v := cand_version c in
+        let tried' := if existsb (veqb v) tried then tried else v :: tried in
+        match budget with
+        | Some b => if b <=? List.length tried' then None else scan_src allow_source r budget tried' cs'
+        | None => scan_src allow_source r budget tried' cs'
+        end
+  end.
+
+Definition one_pass_src (allow_source : bool) (cands : list ucand) (r : req) (allow_pre : bool) (budget : option nat)
+  : option dist :=
+  match cands with
+  | [] => None
+  | _ => scan_src allow_source r budget [] (sort_candidates (filter (usable r (has_equality r) allow_pre) cands))
+  end.
+
+Definition get_dist_src (allow_source : bool) (u : universe) (repo_allow_pre : bool) (r : req) (budget : option nat)
+  : option dist :=
+  let cands := match slookup (norm (safe_name (rname r))) u with Some l => l | None => [] end in
+  match one_pass_src allow_source cands r repo_allow_pre budget with
+  | Some d => Some d
+  | None =>
+      if (forallb (fun c => is_prerelease (cand_version c)) cands || req_has_prerelease r) && negb repo_allow_pre
+      then one_pass_src allow_source cands r true budget
+      else None
+  end.
+
 (* MultiRepository.get_dist over a stack of repositories (each with its own allow_prerelease
    setting): the first one that answers wins, NoCandidate falls through to the next *)
 Definition repo_stack := list (universe * bool).
@@ -73,6 +111,16 @@ Fixpoint get_dist_stack (rs : repo_stack) (r : req) (budget : option nat) : opti
       match get_dist u ap r budget with
       | Some d => Some d
       | None => get_dist_stack rs' r budget
+      end
+  end.
+
+Fixpoint get_dist_stack_src (allow_source : bool) (rs : repo_stack) (r : req) (budget : option nat) : option dist :=
+  match rs with
+  | [] => None
+  | (u, ap) :: rs' =>
+      match get_dist_src allow_source u ap r budget with
+      | Some d => Some d
+      | None => get_dist_stack_src allow_source rs' r budget
       end
   end.
 
@@ -89,7 +137,9 @@ Definition liftA {A} (x : res A) (k : A -> sres) : sres :=
 
 Record copts := mkO {
   o_pinned : list (string * req);      (* options.pinned_requirements (empty = falsy) *)
-  o_allow_circular : bool
+  o_allow_circular : bool;
+  o_only_binary_all : bool;            (* --only-binary :all: *)
+  o_only_binary : list string          (* normalised project names marked binary-only *)
 }.
 
 Definition GFUEL : nat := 400.
@@ -235,7 +285,7 @@ Fixpoint compile_roots (fuel : nat) (e : env) (u : repo_stack) (o : copts) (g : 
                                                  | Some p => p | None => spec0 end)))
                  end) (fun spec_req =>
           let g := log_event g ("query " ++ nkey n ++ " clauses=" ++ string_of_nat (List.length (rspec spec_req)) ++ " maxdg=" ++ string_of_nat maxdg)%string in
-          match get_dist_stack u spec_req (Some maxdg) with
+          match get_dist_stack_src (negb (o_only_binary_all o || smem spec_name (o_only_binary o))) u spec_req (Some maxdg) with
           | None => SNoCand (log_event g "  -> none") (safe_name (rname spec_req)) (rspec spec_req)
           | Some md =>
               let g := log_event g ("  -> " ++ dname md ++ " " ++ dvtext md)%string in
@@ -337,9 +387,9 @@ Inductive cres :=
 | CNoCand (g : graph) (name : string) (spec : list clause)
 | CFatal (e : err).
 
-Definition perform_compile_stack (fuel : nat) (e : env) (u : repo_stack) (inputs : list dist)
+Definition perform_compile_stack_ob (fuel : nat) (e : env) (u : repo_stack) (inputs : list dist)
            (constraints : option (list dist)) (remove_constraints : bool)
-           (maxdg : option nat) : cres :=
+           (maxdg : option nat) (ob_all : bool) (ob : list string) : cres :=
   match (match constraints with Some cs => collect_pins cs true [] | None => Rok (true, []) end) with
   | Rer er => CFatal er
   | Rok (all_pinned, pins) =>
@@ -353,7 +403,7 @@ Definition perform_compile_stack (fuel : nat) (e : env) (u : repo_stack) (inputs
     | Rok (g1, roots) =>
       let nodes := fold_left (fun a x => nadd x a) roots cnodes in
       let has_cons := match constraints with Some (_ :: _) => true | _ => false end in
-      let o := mkO (if all_pinned && has_cons then pins else []) true in
+      let o := mkO (if all_pinned && has_cons then pins else []) true ob_all ob in
       let md := match maxdg with Some m => m | None => max_downgrade end in
       let run :=
         fold_left
@@ -377,6 +427,11 @@ Definition perform_compile_stack (fuel : nat) (e : env) (u : repo_stack) (inputs
     end
   end
   end.
+
+Definition perform_compile_stack (fuel : nat) (e : env) (u : repo_stack) (inputs : list dist)
+           (constraints : option (list dist)) (remove_constraints : bool)
+           (maxdg : option nat) : cres :=
+  perform_compile_stack_ob fuel e u inputs constraints remove_constraints maxdg false [].
 
 (* one repository *)
 Definition perform_compile (fuel : nat) (e : env) (u : universe) (inputs : list dist)
